@@ -140,9 +140,76 @@ theorem declGeometry_has (d : Decl) {n : String} (h : n ∈ declGeomNames d) : H
       (fun acc y hacc => addGeometry_has_mono hacc y) l hl init
   simp only [List.mem_append] at hg
   rcases hg with (hg | hg) | hg
+  · exact mono _ _ (mono _ _ (mono _ _ (reach _ hg _)))
   · exact mono _ _ (mono _ _ (reach _ hg _))
   · exact mono _ _ (reach _ hg _)
-  · exact reach _ hg _
+
+/-! ### distinct names: nothing is overwritten -/
+
+theorem addGeometry_new {gs : List GEntry} {g : GEntry} (h : g.name ∉ gs.map (·.name)) :
+    addGeometry gs g = gs ++ [g] := by
+  unfold addGeometry
+  have : gs.any (·.name == g.name) = false := by
+    rw [List.any_eq_false]
+    intro x hx hn
+    exact h (List.mem_map.mpr ⟨x, hx, by simpa using hn⟩)
+  simp [this]
+
+theorem addGeometry_same {gs : List GEntry} {g : GEntry} (hg : g ∈ gs) (hn : (gs.map (·.name)).Nodup) :
+    addGeometry gs g = gs := by
+  unfold addGeometry
+  have hany : gs.any (·.name == g.name) = true := List.any_eq_true.mpr ⟨g, hg, by simp⟩
+  simp only [hany, if_true]
+  conv_rhs => rw [← List.map_id gs]
+  apply List.map_congr_left
+  intro x hx
+  by_cases h1 : (x.name == g.name) = true
+  · have : x = g := List.inj_on_of_nodup_map hn hx hg (by simpa using h1)
+    simp [this]
+  · simp [h1]
+
+theorem foldl_addGeometry_new (l : List GEntry) : ∀ (init : List GEntry),
+    ((init ++ l).map (·.name)).Nodup → l.foldl addGeometry init = init ++ l := by
+  induction l with
+  | nil => intro init _; simp
+  | cons g rest ih =>
+    intro init h
+    have hg : g.name ∉ init.map (·.name) := by
+      rw [List.map_append, List.map_cons] at h
+      have := (List.nodup_append.mp h).2.2
+      intro hin
+      exact this _ hin _ List.mem_cons_self rfl
+    simp only [List.foldl_cons, addGeometry_new hg]
+    rw [ih (init ++ [g]) (by simpa using h)]
+    simp
+
+theorem foldl_addGeometry_same (l : List GEntry) (gs : List GEntry) (hl : ∀ g ∈ l, g ∈ gs)
+    (hn : (gs.map (·.name)).Nodup) : l.foldl addGeometry gs = gs := by
+  induction l with
+  | nil => rfl
+  | cons g rest ih =>
+    simp only [List.foldl_cons, addGeometry_same (hl g List.mem_cons_self) hn]
+    exact ih (fun x hx => hl x (List.mem_cons_of_mem _ hx))
+
+/-- every geometry entry the user or an entity of the depot declares, in declaration order -/
+def declGeomAll (d : Decl) : List GEntry := d.geomBefore ++ d.depot.flatMap (·.geometry) ++ d.geomAfter
+
+theorem declGeometry_nodup (d : Decl) (h : ((declGeomAll d).map (·.name)).Nodup) :
+    declGeometry d = declGeomAll d := by
+  unfold declGeometry declGeomAll at *
+  have h1 : ((d.geomBefore).map (·.name)).Nodup := by
+    rw [List.map_append, List.map_append] at h
+    exact (List.nodup_append.mp (List.nodup_append.mp h).1).1
+  have h2 : ((d.geomBefore ++ d.depot.flatMap (·.geometry)).map (·.name)).Nodup := by
+    rw [List.map_append] at h
+    exact (List.nodup_append.mp h).1
+  rw [foldl_addGeometry_new d.geomBefore [] (by simpa using h1)]
+  rw [List.nil_append, foldl_addGeometry_new _ _ h2, foldl_addGeometry_new _ _ h]
+  apply foldl_addGeometry_same _ _ _ h
+  intro g hg
+  split at hg
+  · exact List.mem_append_left _ (List.mem_append_right _ hg)
+  · simp at hg
 
 /-! ### labels -/
 
@@ -174,7 +241,7 @@ theorem labelsUsed_dictOf (d : Decl) (ob : List (OpDecl × List Nat))
     rw [List.mem_map] at hve'
     obtain ⟨v, hv, rfl⟩ := hve'
     have hsrc := assemble_vall closeCorner (G := fun p => ∃ o ∈ declOps d, p ∈ o.corners)
-      (C05.slavePatches d.mergedBefore) ((declOps d).map OpDecl.toC05) (vl := {})
+      (C05.slavePatches (declMerged d)) ((declOps d).map OpDecl.toC05) (vl := {})
       (by intro v hv; simp at hv)
       (by
         intro op hop p hp
